@@ -1,5 +1,6 @@
 import Driver.Common
 import DcVerif.Model.RingLabel
+import DcVerif.Model.RingMulti
 /-!
 Trace replay for the ring-buffer properties C04, C05, C06, C13, C14.
 
@@ -29,11 +30,65 @@ structure RCfg where
   drain : Bool := true
 deriving Repr
 
+/-- the model a trace is replayed on: single-producer or multi-producer pipeline -/
+inductive AnyModel
+  | single (x : Ring.PSt)
+  | multi (x : RingMulti.MSt)
+
+inductive AnyTid
+  | s (t : Ring.Tid)
+  | m (t : RingMulti.MTid)
+
+def AnyModel.tid (md : AnyModel) (t : String) : Option AnyTid :=
+  let hnd : Option (Nat × Nat) :=
+    if t.startsWith "H" then
+      match (t.drop 1).toString.splitOn "." with
+      | [a, b] => match a.toNat?, b.toNat? with
+        | some k, some j => some (k, j)
+        | _, _ => none
+      | _ => none
+    else none
+  match md with
+  | .single _ =>
+    if t == "M" then some (.s .prod) else hnd.map (fun (k, j) => .s (.cons k j))
+  | .multi _ =>
+    if t == "M" then some (.m .drainer)
+    else if t.startsWith "W" then ((t.drop 1).toString.toNat?).map (fun i => .m (.writer i))
+    else hnd.map (fun (k, j) => .m (.cons k j))
+
+def AnyModel.skip (md : AnyModel) (t : AnyTid) : AnyModel :=
+  match md, t with
+  | .single x, .s t => .single (Ring.skipInternal x t 16)
+  | .multi x, .m t => .multi (RingMulti.skipInternalM x t 16)
+  | md, _ => md
+
+def AnyModel.label (md : AnyModel) (t : AnyTid) : Option Ring.Label :=
+  match md, t with
+  | .single x, .s t => Ring.label x t
+  | .multi x, .m t => RingMulti.labelM x t
+  | _, _ => none
+
+def AnyModel.enabled (md : AnyModel) (t : AnyTid) : Bool :=
+  match md, t with
+  | .single x, .s t => Ring.enabled x t
+  | .multi x, .m t => RingMulti.enabledM x t
+  | _, _ => false
+
+def AnyModel.step (md : AnyModel) (t : AnyTid) : AnyModel :=
+  match md, t with
+  | .single x, .s t => .single (Ring.stepX x t)
+  | .multi x, .m t => .multi (RingMulti.stepM x t)
+  | md, _ => md
+
+def AnyModel.compact : AnyModel → AnyModel
+  | .single x => .single (Ring.compact x)
+  | .multi x => .multi (RingMulti.compactM x)
+
 structure St where
   prop : String
   cfg : RCfg := {}
   caseOk : Bool := false
-  model : Option Ring.PSt := none
+  model : Option AnyModel := none
   modelLost : Bool := false
   bind : List (String × String) := []        -- model location name ↦ trace location
   locs : List (String × String) := []        -- header: role ↦ trace location (pc, c<k>.<j>)
@@ -52,10 +107,11 @@ def parseCfg (args : List String) : RCfg :=
         if w == "-" then [] else (w.splitOn ",").filterMap (·.toNat?)) }
     | _ => c) {}
 
-def mkModel (c : RCfg) : Ring.PSt :=
+def mkModel (c : RCfg) : AnyModel :=
   let hs := c.stages.map (·.length)
   let harr := hs.toArray
-  Ring.mk c.n c.stages.length (fun k => harr.getD k 0) c.block (c.writers.headD [])
+  if c.multi then .multi (RingMulti.mkM c.n c.stages.length (fun k => harr.getD k 0) c.block c.writers)
+  else .single (Ring.mk c.n c.stages.length (fun k => harr.getD k 0) c.block (c.writers.headD []))
 
 def parseTid (t : String) : Option Ring.Tid :=
   if t == "M" then some .prod
@@ -84,20 +140,31 @@ def evOfLine (op : String) (args : List String) (ans : String) : Ev :=
 
 /-- replay one event on the model; returns new state and mismatch messages -/
 def replay (s : St) (e : Ev) : St × List String :=
-  match s.model, parseTid e.tid with
-  | some x, some t =>
+  match s.model with
+  | none => (s, [])
+  | some md =>
+  match md.tid e.tid with
+  | none => (s, [])
+  | some t =>
     if s.modelLost then (s, []) else
     -- bookkeeping lines that are not model steps
-    if e.kind ∈ ["start", "join", "wbegin", "wend", "drain", "drained", "joined", "slot"] then (s, []) else
-    let x := Ring.skipInternal x t 16
-    match Ring.label x t with
+    if e.kind ∈ ["start", "wbegin", "wend", "drain", "drained", "joined", "slot"] then (s, []) else
+    let md := md.skip t
+    match md.label t with
     | none => ({ s with modelLost := true }, [s!"MISMATCH model-thread-stuck-internal tid={e.tid}"])
     | some lab =>
       let fail (why : String) : St × List String :=
         ({ s with modelLost := true },
          [s!"MISMATCH {why} tid={e.tid} impl={e.kind} {" ".intercalate e.args}=>{e.obs} model={lab.kind} loc={(lab.loc.map Ring.Loc.name).getD "-"} val={lab.val.getD 0} ord={lab.ord} obs={lab.obs.getD 0}"])
-      if e.kind == "exit" then
-        if lab.kind == "exit" then (s, []) else fail "thread-exited-but-model-continues"
+      if e.kind == "join" then
+        -- the final join on the handler threads is bookkeeping; the multi-producer drainer's join on the writers is a step
+        if lab.kind == "join" then
+          if md.enabled t then ({ s with model := some (md.step t) }, []) else fail "join-returned-but-model-writers-not-done"
+        else (s, [])
+      else if e.kind == "exit" then
+        if lab.kind == "exit" || lab.kind == "panic" then ({ s with model := some md }, []) else fail "thread-exited-but-model-continues"
+      else if e.kind == "panic" then
+        if lab.kind == "panic" then ({ s with model := some md }, []) else fail "implementation-thread-panicked"
       else if e.kind != lab.kind then fail "operation-kind"
       else
         -- location
@@ -114,19 +181,21 @@ def replay (s : St) (e : Ev) : St × List String :=
           | none => true
         if !declOk then fail "location-vs-header" else
         -- value / ordering / observation
+        let obsOk := match lab.obs with | some o => e.obs == toString o | none => true
         let okVal := match e.kind with
           | "st" | "stb" => e.args.getD 1 "" == toString (lab.val.getD 0) && e.args.getD 2 "" == lab.ord
-          | "ld" | "ldb" => e.args.getD 1 "" == lab.ord && (match lab.obs with | some o => e.obs == toString o | none => true)
+          | "ld" | "ldb" => e.args.getD 1 "" == lab.ord && obsOk
+          | "cas" => e.args.getD 2 "" == toString (lab.val.getD 0) && e.args.getD 3 "" == lab.ord && obsOk
+          | "for" | "fand" => e.args.getD 2 "" == lab.ord && obsOk
           | "handle" => e.args.getD 2 "" == toString (lab.val.getD 0) && e.args.getD 4 "" == (if lab.eob then "1" else "0")
           | "write" => e.args.getD 0 "" == toString (lab.val.getD 0)
           | _ => true
         if !okVal then fail "value/ordering/observation" else
-        if !Ring.enabled x t then fail "model-thread-not-enabled" else
-        let x' := Ring.stepX x t
+        if !md.enabled t then fail "model-thread-not-enabled" else
+        let md' := md.step t
         let steps := s.steps + 1
-        let x' := if steps % 200 == 0 then Ring.compact x' else x'
-        ({ s with model := some x', steps := steps }, [])
-  | _, _ => (s, [])
+        let md' := if steps % 200 == 0 then md'.compact else md'
+        ({ s with model := some md', steps := steps }, [])
 
 /-! ## oracles on the implementation's events -/
 
@@ -336,6 +405,7 @@ def specC05hb (s : St) : List String :=
 def specC06 (s : St) (status : String) : List String :=
   let has (k : String) := s.evs.any (fun e => e.kind == k)
   (if status != "ok" then [s!"SPECFAIL C06 run ended with status {status}"] else []) ++
+  ((s.evs.toList.filter (fun e => e.kind == "panic")).map (fun e => s!"SPECFAIL C06 thread {e.tid} panicked instead of returning")) ++
   (if status == "ok" && s.cfg.drain && !(has "drained") then ["SPECFAIL C06 drain did not return"] else []) ++
   (if status == "ok" && !(has "joined") then ["SPECFAIL C06 join did not return"] else []) ++
   (let wb := (s.evs.filter (fun e => e.kind == "wbegin")).size
@@ -398,10 +468,12 @@ def finish (s : St) (status : String) : List String :=
     | "C14" => specC14 s status
     | _ => []
   let modelEnd := match s.model, s.modelLost, status with
-    | some x, false, "ok" =>
+    | some (.single x), false, "ok" =>
       -- at the end every model thread must have terminated as well
       let x := Ring.skipInternal x .prod 16
       if x.p.pc != .done then [s!"MISMATCH run complete but model producer is at {repr x.p.pc}"] else []
+    | some (.multi x), false, "ok" =>
+      if x.dr.pc != .done then [s!"MISMATCH run complete but model drainer is at {repr x.dr.pc}"] else []
     | _, _, _ => []
   (dedup spec).take 6 ++ modelEnd
 
@@ -412,7 +484,7 @@ def handler (prop : String) : Handler St where
     let toks := (ans.splitOn " ").filter (· ≠ "")
     let locs := (toks.drop 1).filterMap (fun t => match t.splitOn "=" with | [a, b] => some (a, b) | _ => none)
     ({ prop := prop, cfg := cfg, caseOk := toks.head? == some "ok", locs := locs,
-       model := if cfg.multi then none else some (mkModel cfg) },
+       model := some (mkModel cfg) },
      if toks.head? == some "ok" then [] else [s!"MISMATCH harness could not start the case: {ans}"])
   onOp s op args ans :=
     if op == "end" then
